@@ -26,6 +26,8 @@ use linker_utils::elf::shf;
 
 #[path = "__verif_stubs.rs"]
 mod stubs;
+#[path = "__verif_tracing_stubs.rs"]
+mod tstubs;
 
 const NUM_ALIGN: usize = crate::alignment::NUM_ALIGNMENTS;
 const REGULAR: usize = 3;
@@ -47,6 +49,10 @@ fn info(exec: bool) -> SectionOutputInfo<'static, Elf> {
 #[kani::proof]
 #[kani::unwind(100)]
 #[kani::stub(alloc::fmt::format, stubs::verif_format_stub)]
+#[kani::stub(tracing::callsite::DefaultCallsite::interest, tstubs::verif_tracing_interest_never)]
+#[kani::stub(tracing::__macro_support::__is_enabled, tstubs::verif_tracing_not_enabled)]
+#[kani::stub(tracing::Event::dispatch, tstubs::verif_tracing_event_dispatch_noop)]
+#[kani::stub(tracing::Span::new, tstubs::verif_tracing_span_none)]
 fn c11_non_primary_text_size_counts_every_other_executable_part() {
     let nsingle = NUM_SINGLE_PART_SECTIONS as usize;
     // which sections are executable: single-part section number `s_idx` and the regular ones
